@@ -187,14 +187,14 @@ def r_affine(ctx: Ctx, model, tr):
            nontrivial_key=("alpha", "curve"))
 
 
-def r_alpha_reference(ctx: Ctx, model):
+def r_alpha_reference(ctx: Ctx, model, prop="C14", rule="L-affine"):
     """alpha-s against itself returns the reference area: the wrapper hands alpha_s_raw the area of the *reference* isotherm computed by
     the method the caller named ('BET' -> area_BET, 'langmuir' -> area_langmuir, a number as it is), in any letter case"""
     import sympy as _sp
     from ..absint import Obj
     from ..domain import make_interp as _mk
     from ..libsum import Vec as _Vec, install_vec as _iv
-    ctx.rule("L-affine (reference area): alpha_s passes alpha_s_raw area_BET(reference)['area'] for reference_area='BET', "
+    ctx.rule(f"{rule} (reference area): alpha_s passes alpha_s_raw area_BET(reference)['area'] for reference_area='BET', "
              "area_langmuir(reference)['area'] for 'langmuir', a numeric value unchanged (wrapper interpreted with recording stubs)")
     fi = model.func(f"{CH}.alphas_plots.alpha_s")
     Sy = lambda nm: _sp.Symbol(nm, positive=True)
@@ -224,7 +224,7 @@ def r_alpha_reference(ctx: Ctx, model):
         got = oks[0].value.get("area") if oks else None
         on = (oks[0].value.get("bet_on") or []) + (oks[0].value.get("lang_on") or []) if oks else []
         ok = bool(oks) and got == Sy(want) and all(x is ref for x in on) and len(on) == 1
-        ctx.ob(ok, Finding("C14.L-affine", fi.where, f"alpha_s|reference-area|{given.lower()}",
+        ctx.ob(ok, Finding(f"{prop}.{rule}", fi.where, f"alpha_s|reference-area|{given.lower()}",
                            f"alpha_s(reference_area={given!r}) hands alpha_s_raw the reference area {got!r} (area routine run on "
                            f"{[getattr(x, 'label', x) for x in on]}); required {want} of the reference isotherm"
                            + ("" if oks else f" (outcomes {[repr(o)[:70] for o in outs[:2]]})")),
@@ -435,6 +435,11 @@ def run(ctx: Ctx):
     r_alpha_reference(ctx, model)
     r_plot_limits(ctx, model)
     r_window(ctx, model)
+    # the wrappers (area_BET, area_langmuir, t_plot, alpha_s, dr_plot, da_plot) analyse the branch the caller names: interpreted with a
+    # recording stub isotherm up to the *_raw routine (machinery shared with C15 R-pin)
+    ctx.rule("L-branch: every read of the sample isotherm made by a wrapper called with branch='ads' / 'des' asks for that branch")
+    from .C15 import r_pin_interpreted
+    r_pin_interpreted(ctx, model, prop="C14", rule="L-branch", check="branch")
     # module-level state: only the declared write-once caches, guarded and keyed by the full argument (shared with C04 R-module)
     from ..effects import Effects
     from .C04 import r_module
